@@ -273,7 +273,7 @@ class Op:
     @property
     def py(self):
         """the Python operation method whose _imethodcall/_methodcall/_iexportcall call handles the response"""
-        if self.flags.get('iter'):
+        if self.flags.get('iter') or self.flags.get('oracle_only'):
             return self.meth
         return self.name.split(':')[0]
 
@@ -569,6 +569,12 @@ def _ops():
         add(nm + ':pull', 'imethod', openm, ppost, call, (lambda v: lambda g: v(g, True))(vopen), pull=True,
             iter=True, instLevel=True, returnClass=False, **OUT)
         add(nm + ':trad', 'imethod', tradm, tpost, call, vtrad, pull=False, iter=True, instLevel=True, **RV)
+        # use_pull_operations=None: the generator learns from the first answer (falls back to the traditional
+        # operation on CIM_ERR_NOT_SUPPORTED); the learning logic is property C15's: oracle only here
+        add(nm + ':auto', 'imethod', openm, ppost, call, (lambda v: lambda g: v(g, None))(vopen), pull='auto',
+            iter=True, oracle_only=True, instLevel=True, returnClass=False, **OUT)
+    add('is_subclass', 'imethod', 'GetClass', 'bool', lambda c: c.is_subclass(NS, 'CIM_Sub', 'CIM_Foo'), v_class,
+        oracle_only=True, **RV)
     return ops
 
 
@@ -634,7 +640,7 @@ def run_real(op, status, reason, headers, body, exc=None):
     """call the operation on a fresh connection whose first request is answered with the given response.
     Returns (outcome_json, result_or_exception, connection)"""
     import common
-    conn, ad = new_conn(use_pull_operations=op.pull)
+    conn, ad = new_conn(use_pull_operations=None if op.pull == 'auto' else op.pull)
     state = {'n': 0}
 
     def script(meth, request):
@@ -671,6 +677,8 @@ def shape_ok(op, r):
     I, IN, C, CN, QD = (pywbem.CIMInstance, pywbem.CIMInstanceName, pywbem.CIMClass, pywbem.CIMClassName,
                         pywbem.CIMQualifierDeclaration)
     post = op.post
+    if post == 'bool':
+        return isinstance(r, bool)
     if op.flags.get('iter'):
         # list(generator): instances / paths
         if post in ('pullInst', 'instList', 'objs'):
@@ -1100,3 +1108,43 @@ def transport_exceptions():
            ux.IncompleteRead(1, 2), ux.InvalidHeader('x'), ux.ResponseError('x'), ux.NewConnectionError(None, 'x'),
            ux.ConnectTimeoutError('x'), ux.TimeoutError('x'), ux.ClosedPoolError(None, 'x'), ux.EmptyPoolError(None, 'x')]
     return out
+
+
+KEY_ATTR_VALUES = ['', 'x', '-1', 'uint8\n', 'reference', 'string', 'bogus', 'true', '٣']
+KEY_RENAMES = ['VALUE', 'VALUE.NULL', 'INSTANCE', 'INSTANCENAME', 'CLASS', 'ERROR', 'PARAMVALUE', 'IRETURNVALUE', 'X']
+
+
+def systematic_mutants(t):
+    """the complete single-fault neighbourhood of one tree: every element dropped / duplicated / renamed (9 names),
+    every attribute dropped / set to each of 9 key values, every VALUE/KEYVALUE text replaced by 6 key texts.
+    Yields (label, tree)."""
+    nodes = [(p, n) for p, n in walk(t)]
+    for p, n in nodes:
+        if p:
+            c = copy.deepcopy(t)
+            par = node_at(c, p[:-1])
+            del par[2][p[-1]]
+            yield 'sys:drop:' + n[0], c
+            c = copy.deepcopy(t)
+            par = node_at(c, p[:-1])
+            par[2].insert(p[-1], copy.deepcopy(n))
+            yield 'sys:dup:' + n[0], c
+        for nm in KEY_RENAMES:
+            if nm != n[0]:
+                c = copy.deepcopy(t)
+                node_at(c, p)[0] = nm
+                yield 'sys:rename:' + n[0], c
+        for a in sorted(n[1]):
+            c = copy.deepcopy(t)
+            del node_at(c, p)[1][a]
+            yield 'sys:drop_attr:%s@%s' % (n[0], a), c
+            for v in KEY_ATTR_VALUES:
+                if v != n[1][a]:
+                    c = copy.deepcopy(t)
+                    node_at(c, p)[1][a] = v
+                    yield 'sys:set_attr:%s@%s' % (n[0], a), c
+        if n[0] in ('VALUE', 'KEYVALUE'):
+            for v in ('', 'INF', '1e400', 'x', '<', '-1'):
+                c = copy.deepcopy(t)
+                node_at(c, p)[2] = [v] if v else []
+                yield 'sys:text:' + n[0], c
